@@ -52,6 +52,8 @@ class C06(Check):
                 for s in N3:
                     for t in N3:
                         js.append(dict(kind='target', topo=topo, s=s, t=t))
+        for k in range(len(self.PD_SCRIPTS) if tier == 'thorough' else 2):
+            js.append(dict(kind='pdict', script=k, topo=[]))
         for topo in netlib.topologies(N3, 1) + netlib.topologies(N3, 2)[::3]:
             js.append(dict(kind='all', topo=topo))
         for topo in rng.sample(netlib.topologies(N3, 3), 60 if tier == 'quick' else 400):
@@ -75,6 +77,41 @@ class C06(Check):
     def patches(self, job):
         return []
 
+    # the priority queue behind Dijkstra, exercised on its own: ('s', key index, value index) = set / update, ('p',) = pop_smallest.
+    # Each script passes the 'heap larger than twice the live keys' clean-up point with several live keys.
+    PD_SCRIPTS = [
+        [('s', 0, 0), ('s', 1, 1), ('s', 2, 2), ('s', 0, 3), ('s', 1, 4), ('s', 2, 5), ('s', 0, 6), ('p',), ('s', 1, 7), ('p',), ('p',)],
+        [('s', 0, 0), ('s', 1, 1), ('s', 0, 2), ('s', 1, 3), ('s', 0, 4), ('s', 2, 5), ('p',), ('p',), ('p',)],
+        [('s', 0, 0), ('s', 1, 1), ('s', 2, 2), ('s', 3, 3), ('p',), ('s', 1, 4), ('s', 2, 5), ('s', 3, 6), ('s', 1, 7), ('p',), ('p',), ('p',)],
+    ]
+
+    # initial priorities are concrete in the long scripts (the updates stay symbolic): one path per consistent outcome of the heap comparisons
+    PD_FIXED = [{0: 5, 1: 3, 2: 8}, {}, {0: 6, 1: 2, 2: 9, 3: 4}]
+
+    def _pdict(self, ctx, job, vals, prove):
+        """runs one script on the real priority_dict; returns a violation message or None"""
+        from tracklib.core.utils import priority_dict
+        pd = priority_dict()
+        cur = {}
+        for step, op in enumerate(self.PD_SCRIPTS[job['script']]):
+            if op[0] == 's':
+                k = 'k%d' % op[1]
+                pd[k] = vals[op[2]]
+                cur[k] = vals[op[2]]
+            else:
+                try:
+                    k = pd.pop_smallest()
+                except Exception as e:
+                    return 'pop_smallest raised %s with live keys %r (step %d)' % (type(e).__name__, sorted(cur), step)
+                if k not in cur:
+                    return 'pop_smallest returned %r which is not a live key (step %d)' % (k, step)
+                if not prove(k, cur):
+                    return 'STOP' if prove.sym else 'pop_smallest returned %r (priority %r) although live priorities are %r (step %d)' % (k, cur[k], cur, step)
+                del cur[k]
+            if len(pd) != len(cur):
+                return 'the queue holds %d keys, %d are live (step %d)' % (len(pd), len(cur), step)
+        return None
+
     def _setup(self, ctx, job, style='plain'):
         eng = ctx.eng
         topo = [tuple(e) for e in job['topo']]
@@ -85,6 +122,20 @@ class C06(Check):
 
     def path(self, ctx, job):
         eng = ctx.eng
+        if job['kind'] == 'pdict':
+            nv = 1 + max(op[2] for op in self.PD_SCRIPTS[job['script']] if op[0] == 's')
+            fixed = self.PD_FIXED[job['script']]
+            vals = [float(fixed[i]) if i in fixed else eng.real('v%d' % i, 0, WMAX) for i in range(nv)]
+
+            def prove(k, cur):
+                return ctx.prove(z3.And([zreal(cur[k]) <= zreal(cur[o]) for o in cur]), 'pop_smallest returns a live key of minimal priority')
+            prove.sym = True
+            v = self._pdict(ctx, job, vals, prove)
+            ctx.reach()
+            if v and v != 'STOP':
+                import re
+                ctx.fail(re.sub(r"\(step \d+\)|'k\d'|\[[^\]]*\]|\d+", '', v).strip())
+            return
         topo, W, Wz, nodes, net = self._setup(ctx, job)
         kind = job['kind']
         if kind == 'target':
@@ -168,6 +219,19 @@ class C06(Check):
 
     # ------------------------------------------------------------------
     def concrete(self, job, inp):
+        if job['kind'] == 'pdict':
+            nv = 1 + max(op[2] for op in self.PD_SCRIPTS[job['script']] if op[0] == 's')
+            fixed = self.PD_FIXED[job['script']]
+            vals = [float(fixed[i]) if i in fixed else float(inp['v%d' % i]) for i in range(nv)]
+
+            def prove(k, cur):
+                return all(cur[k] <= cur[o] for o in cur)
+            prove.sym = False
+            try:
+                v = self._pdict(None, job, vals, prove)
+            except Exception as e:
+                v = 'priority_dict script raised %s: %s' % (type(e).__name__, e)
+            return dict(violation=(v + ' [script %r, priorities %r]' % (self.PD_SCRIPTS[job['script']], vals)) if v else None, outputs={})
         topo = [tuple(e) for e in job['topo']]
         W = [float(inp['w%d' % i]) for i in range(len(topo))]
         nodes = _nodes(topo)
